@@ -141,6 +141,10 @@ def minus(a, b):
     return mk(w, out)
 
 
+def count(av):
+    return sum(b - a + 1 for a, b in av[2])
+
+
 def umin(av): return av[2][0][0]
 def umax(av): return av[2][-1][1]
 
@@ -455,6 +459,7 @@ class Explorer:
         self.keep_trail = keep_trail
         self.start_block = start_block
         self.tainted_conds = []         # undecidable conditions that depend on assumptions
+        self.stop = False               # a plugin may end the exploration early
 
     # ---------------- evaluation
     def eval(self, o, env, memo=None):
@@ -594,7 +599,34 @@ class Explorer:
                     return ai or full(1)
                 return full(1)
             for x, cv in ((ai, sb), (bi, sa)):
+                if cv is not None and x is not None and count(x) <= 4096:
+                    return mk(w, [(v & cv, v & cv) for lo, hi in x[2] for v in range(lo, hi + 1)])
+            for x, cv in ((ai, sb), (bi, sa)):
+                if cv is not None and x is not None and cv:
+                    # contiguous mask [l,h): exact per interval when the interval stays inside one 2^h block
+                    l = (cv & -cv).bit_length() - 1
+                    nn = cv >> l
+                    if nn & (nn + 1) == 0 and len(x[2]) <= 1024:
+                        h = l + nn.bit_length()
+                        outs = []
+                        okk = True
+                        for lo, hi in x[2]:
+                            if (lo >> h) != (hi >> h):
+                                okk = False
+                                break
+                            a2, b2 = lo & ((1 << h) - 1), hi & ((1 << h) - 1)
+                            outs.append(((a2 >> l) << l, (b2 >> l) << l))
+                        if okk:
+                            return mk(w, outs)
+            for x, cv in ((ai, sb), (bi, sa)):
                 if cv is not None:
+                    inv = (~cv) & m
+                    if x is not None and cv and (inv & (inv + 1)) == 0:
+                        # high mask: zero iff x <= inv
+                        if umax(x) <= inv:
+                            return const(0, w)
+                        if umin(x) > inv:
+                            return mk(w, [(inv + 1, min(cv, umax(x)))])
                     hi = cv
                     if x is not None and (cv & (cv + 1)) == 0 and umax(x) <= cv:
                         return x
@@ -879,6 +911,8 @@ class Explorer:
                     if nx != (x if x is not None else full(w)):
                         self._set_int(xo, nx, e)
             e[key] = const(1 if truth else 0, 1)
+            if any(is_empty(v) for v in e.values() if isinstance(v, tuple)):
+                return []
             return [e]
         if i.op == "fcmp":
             a = self.eval(i.ops[0], env)
@@ -915,6 +949,23 @@ class Explorer:
             s = to_signed_ivs(av)
             if sw and s and -(1 << (sw - 1)) <= s[0][0] and s[-1][1] < (1 << (sw - 1)):
                 self._set_int(d.ops[0], from_signed_ivs(sw, s), e)
+        elif d.op == "and" and d.ops[1][0] == "c" and d.ops[0][0] in ("i", "a"):
+            # x & C with C = all ones above bit n:  result == 0  <=>  x < 2^n ;  result != 0  <=>  x >= 2^n
+            w = av[1]
+            C = d.ops[1][1]
+            inv = (~C) & ((1 << w) - 1)
+            cur0 = self.eval(d.ops[0], e)
+            if cur0 is not None and cur0[0] == "int" and count(cur0) <= 4096:
+                keep = [(v, v) for lo, hi in cur0[2] for v in range(lo, hi + 1) if not is_empty(inter(const(v & C, w), av))]
+                self._set_int(d.ops[0], mk(w, keep), e)
+            elif C and (inv & (inv + 1)) == 0:
+                cur = self.eval(d.ops[0], e)
+                if cur is None:
+                    cur = full(w)
+                if singleton(av) == 0:
+                    self._set_int(d.ops[0], inter(cur, mk(w, [(0, inv)])), e)
+                elif is_empty(inter(av, const(0, w))):
+                    self._set_int(d.ops[0], inter(cur, mk(w, [(inv + 1, (1 << w) - 1)])), e)
         elif d.op == "add" and d.ops[1][0] == "c" and d.ops[0][0] in ("i", "a") and (d.d.get("nsw") or d.d.get("nuw")):
             w = av[1]
             c = ir.cint_signed(d.ops[1])
@@ -957,7 +1008,9 @@ class Explorer:
         work = [(self.start_block, None, State(env0))]
         seen = {}
         per_block = {}
-        while work:
+        block_envs = {}
+        merged = {}
+        while work and not self.stop:
             bidx, pred, st = work.pop()
             self.steps += 1
             if self.steps > self.MAXSTEPS:
@@ -993,8 +1046,20 @@ class Explorer:
             seen[sk] = True
             cnt = per_block.get(bidx, 0) + 1
             per_block[bidx] = cnt
+            block_envs.setdefault(bidx, []).append(st.env)
             if cnt > self.CAP:
-                raise AnalysisBroken("more than %d distinct states at block %s of %s (state cap)" % (self.CAP, b.name, f.name))
+                mg = merged.get(bidx)
+                if mg is not None and _subsumes(mg, st.env):
+                    continue
+                if mg is None:
+                    mg = block_envs[bidx][0]
+                    for e2 in block_envs[bidx][1:]:
+                        mg = _join(mg, e2, b, f)
+                else:
+                    mg = _join(mg, st.env, b, f)
+                merged[bidx] = mg
+                self.merged = True
+                st = State(dict(mg), True, st.trail)
             self.visited_blocks.add(bidx)
             states = [st]
             for i in b.insts:
@@ -1061,6 +1126,47 @@ class Explorer:
                 work.append((t.d["default"], b.idx, State(e, s.approx, s.trail)))
             return
         raise AnalysisBroken("unhandled terminator %s in %s" % (t.op, self.f.name))
+
+
+def _join(e1, e2, b, f):
+    out = {}
+    for k, v in e1.items():
+        if k[0] in ("i", "a"):
+            if k in e2:
+                u = union(v, e2[k])
+                if u is not None and not is_full(u):
+                    out[k] = u
+        else:
+            if e2.get(k) != v:
+                raise AnalysisBroken("more than %d distinct states at block %s of %s and they differ in %s (state cap)" % (Explorer.CAP, b.name, f.name, k))
+            out[k] = v
+    for k, v in e2.items():
+        if k[0] not in ("i", "a") and k not in e1:
+            raise AnalysisBroken("more than %d distinct states at block %s of %s and they differ in %s (state cap)" % (Explorer.CAP, b.name, f.name, k))
+    return out
+
+
+def _subsumes(mg, env):
+    for k, v in mg.items():
+        if k[0] in ("i", "a"):
+            if k not in env:
+                return False
+            e = env[k]
+            if e != v:
+                if v[0] == "int" and e[0] == "int":
+                    if minus(e, v)[2]:
+                        return False
+                elif v[0] == "fp" and e[0] == "fp":
+                    if not e[1] <= v[1]:
+                        return False
+                else:
+                    return False
+        elif env.get(k) != v:
+            return False
+    for k in env:
+        if k[0] not in ("i", "a") and k not in mg:
+            return False
+    return True
 
 
 def trail_lines(f, trail, limit=12):
